@@ -7,7 +7,9 @@ package props
 import (
 	"reflect"
 	"regexp"
+	"runtime"
 	"sync/atomic"
+	"time"
 
 	"github.com/parquet-go/parquet-go/format"
 
@@ -297,6 +299,7 @@ var C15Scenarios = []c15Scenario{
 	{"keptrows", "N goroutines on one *parquet.File each read part of a row group (stopping in the middle of a page), close their reader and keep the rows (byte-array values stay valid after the reader is gone: their buffer is detached from the pools) while the other goroutines go on reading", scenKeptRows, false},
 	{"asyncfile", "N goroutines reading one file opened in ReadModeAsync (rows and seeks), compared with sync mode", scenAsyncFile, false},
 	{"schema", "one fresh *Schema (lazy state not yet built) and the shared codecs used from N goroutines at once", scenSchema, false},
+	{"samekey", "process-wide registries and caches hit by N goroutines with the SAME never-before-seen key at nearly the same moment (one ReadBufferSize, one Go struct type for SchemaOf, one large Go struct type written through the reflection path of the writers: struct field cache), late-comers arriving while the first goroutine builds the entry; what each goroutine wrote is checked against its input", scenSameKey, true},
 	{"registries", "process-wide registries and caches: independent Files opened with never-before-seen ReadBufferSize values (bufio.Reader pool registry), never-before-seen Go struct types (schema cache, struct field cache), encoding/codec lookups", scenRegistries, true},
 }
 
@@ -425,125 +428,182 @@ func scenBuffers(seed int64, par bool) (string, error) {
 	return digest(outs...), err
 }
 
+// c15SlowReaderAt is slow storage: every read takes a little while (and gives the processor away),
+// which widens the window of every lazy load made on behalf of one goroutine while the others arrive.
+// It holds no state shared between goroutines (a lock or counter here would order the goroutines'
+// memory accesses and hide races from the race detector). Only coverage depends on it, no verdict.
+type c15SlowReaderAt struct {
+	r    io.ReaderAt
+	slow bool
+}
+
+func (s c15SlowReaderAt) ReadAt(p []byte, off int64) (int, error) {
+	if s.slow {
+		time.Sleep(40 * time.Microsecond)
+		runtime.Gosched()
+	}
+	return s.r.ReadAt(p, off)
+}
+
+// scenSharedFile: one *File, n goroutines in groups of four tasks (rows, pages, page indexes, bloom
+// filters), so that at least three goroutines perform every task on the same column chunks at the
+// same time. The class covered is "state of an opened File that is loaded on first use": the File is
+// opened in every mode that defers a different part of the loading (page indexes and bloom filter
+// headers skipped at open: CAS-published pointers; bloom filter bits compressed: gunzipped by the
+// first Check; everything prefetched), over slow storage in the concurrent run.
 func scenSharedFile(seed int64, par bool) (string, error) {
 	schema := parquet.SchemaOf(C15Row{})
-	rows := c15Rows(rand.New(rand.NewSource(seed)), 500, 0)
-	data, err := c15WriteFile(rows, c15WriterOptions(int(seed%12), schema, 120)...) // several row groups
-	if err != nil {
-		return "", err
-	}
+	rows := c15Rows(rand.New(rand.NewSource(seed)), 270, 0)
 	var all []string
-	// lazily loaded indexes and filters (CAS publication) and eagerly loaded ones
-	for _, lazy := range []bool{true, false} {
-		f, err := parquet.OpenFile(bytes.NewReader(data), int64(len(data)), parquet.SkipPageIndex(lazy), parquet.SkipBloomFilters(lazy))
+	for fileKind := 0; fileKind < 2; fileKind++ {
+		wopts := c15WriterOptions(int(seed%12), schema, 100) // several row groups
+		if fileKind == 1 {
+			wopts = append(wopts, parquet.BloomFilterCompression(&parquet.Gzip))
+		}
+		data, err := c15WriteFile(rows, wopts...)
 		if err != nil {
 			return "", err
 		}
-		const n = 12
-		outs := make([]string, n)
-		type ptrs struct {
-			ci []parquet.ColumnIndex
-			oi []parquet.OffsetIndex
-			bf []parquet.BloomFilter
+		modes := [][]parquet.FileOption{
+			{parquet.SkipPageIndex(true), parquet.SkipBloomFilters(true)},
+			{parquet.SkipPageIndex(false), parquet.SkipBloomFilters(false)},
 		}
-		seen := make([]ptrs, n)
-		err = fanout(par, n, func(i int) error {
-			var sb bytes.Buffer
-			rgs := f.RowGroups()
-			switch i % 4 {
-			case 0: // rows of every row group
-				for _, rg := range rgs {
-					s, err := readRowGroupRows(rg)
+		modeNames := []string{"lazy", "eager"}
+		if (seed+int64(fileKind))%2 == 0 {
+			modes = append(modes, []parquet.FileOption{parquet.PrefetchBloomFilters(true), parquet.OptimisticRead(true)})
+			modeNames = append(modeNames, "prefetch")
+		}
+		var first []string
+		for m, fopts := range modes {
+			what := fmt.Sprintf("open mode %s, bloom filters %s", modeNames[m], []string{"uncompressed", "gzip"}[fileKind])
+			f, err := parquet.OpenFile(c15SlowReaderAt{bytes.NewReader(data), par}, int64(len(data)), fopts...)
+			if err != nil {
+				return "", err
+			}
+			outs, err := c15SharedFileTasks(f, par, what)
+			if err != nil {
+				return "", err
+			}
+			if first == nil {
+				first = outs
+			}
+			for task := 0; task < 4; task++ {
+				if outs[task] != first[task] {
+					return "", fmt.Errorf("[shared-file-open-modes-differ] task kind %d reads different content from the same bytes with %s than with open mode %s", task, what, modeNames[0])
+				}
+			}
+			all = append(all, outs...)
+		}
+	}
+	return digestStrings(all), nil
+}
+
+func c15SharedFileTasks(f *parquet.File, par bool, what string) ([]string, error) {
+	const n = 12
+	outs := make([]string, n)
+	type ptrs struct {
+		ci []parquet.ColumnIndex
+		oi []parquet.OffsetIndex
+		bf []parquet.BloomFilter
+	}
+	seen := make([]ptrs, n)
+	err := fanout(par, n, func(i int) error {
+		var sb bytes.Buffer
+		rgs := f.RowGroups()
+		switch i % 4 {
+		case 0: // rows of every row group
+			for _, rg := range rgs {
+				s, err := readRowGroupRows(rg)
+				if err != nil {
+					return err
+				}
+				sb.WriteString(s)
+			}
+		case 1: // pages of every column chunk
+			for _, rg := range rgs {
+				for _, cc := range rg.ColumnChunks() {
+					s, err := readChunkPages(cc)
 					if err != nil {
 						return err
 					}
 					sb.WriteString(s)
 				}
-			case 1: // pages of every column chunk
-				for _, rg := range rgs {
-					for _, cc := range rg.ColumnChunks() {
-						s, err := readChunkPages(cc)
-						if err != nil {
-							return err
-						}
-						sb.WriteString(s)
+			}
+		case 2: // page indexes
+			for _, rg := range rgs {
+				for _, cc := range rg.ColumnChunks() {
+					ci, err := cc.ColumnIndex()
+					if err != nil {
+						return err
 					}
-				}
-			case 2: // page indexes
-				for _, rg := range rgs {
-					for _, cc := range rg.ColumnChunks() {
-						ci, err := cc.ColumnIndex()
-						if err != nil {
-							return err
-						}
-						oi, err := cc.OffsetIndex()
-						if err != nil {
-							return err
-						}
-						seen[i].ci = append(seen[i].ci, ci)
-						seen[i].oi = append(seen[i].oi, oi)
-						for p := 0; p < ci.NumPages(); p++ {
-							fmt.Fprintf(&sb, "%s..%s n%d %v|", ci.MinValue(p).String(), ci.MaxValue(p).String(), ci.NullCount(p), ci.NullPage(p))
-						}
-						for p := 0; p < oi.NumPages(); p++ {
-							fmt.Fprintf(&sb, "@%d+%d r%d|", oi.Offset(p), oi.CompressedPageSize(p), oi.FirstRowIndex(p))
-						}
-						sb.WriteByte('\n')
+					oi, err := cc.OffsetIndex()
+					if err != nil {
+						return err
 					}
-				}
-			case 3: // bloom filters
-				for _, rg := range rgs {
-					for c, cc := range rg.ColumnChunks() {
-						bf := cc.BloomFilter()
-						seen[i].bf = append(seen[i].bf, bf)
-						if bf == nil {
-							continue
-						}
-						for probe := int64(0); probe < 40; probe++ {
-							var v parquet.Value
-							if c == 0 {
-								v = parquet.Int64Value(probe * 25)
-							} else {
-								v = parquet.ByteArrayValue([]byte(fmt.Sprintf("%c", 'a'+byte(probe%26))))
-							}
-							ok, err := bf.Check(v)
-							if err != nil {
-								return err
-							}
-							fmt.Fprintf(&sb, "%d:%v,", bf.Size(), ok)
-						}
+					seen[i].ci = append(seen[i].ci, ci)
+					seen[i].oi = append(seen[i].oi, oi)
+					for p := 0; p < ci.NumPages(); p++ {
+						fmt.Fprintf(&sb, "%s..%s n%d %v|", ci.MinValue(p).String(), ci.MaxValue(p).String(), ci.NullCount(p), ci.NullPage(p))
 					}
+					for p := 0; p < oi.NumPages(); p++ {
+						fmt.Fprintf(&sb, "@%d+%d r%d|", oi.Offset(p), oi.CompressedPageSize(p), oi.FirstRowIndex(p))
+					}
+					sb.WriteByte('\n')
 				}
 			}
-			outs[i] = sb.String()
-			return nil
-		})
-		if err != nil {
-			return "", err
-		}
-		// all goroutines must have observed one pointer per column chunk
-		for i := 4; i < n; i++ {
-			j := i % 4
-			for k := range seen[i].ci {
-				if seen[i].ci[k] != seen[j].ci[k] || seen[i].oi[k] != seen[j].oi[k] {
-					return "", fmt.Errorf("goroutines %d and %d observed different page index pointers for chunk %d (lazy=%v)", i, j, k, lazy)
+		case 3: // bloom filters
+			for g, rg := range rgs {
+				for c, cc := range rg.ColumnChunks() {
+					bf := cc.BloomFilter()
+					seen[i].bf = append(seen[i].bf, bf)
+					if bf == nil {
+						continue
+					}
+					for probe := int64(0); probe < 40; probe++ {
+						var v parquet.Value
+						if c == 0 {
+							v = parquet.Int64Value(probe * 25)
+						} else {
+							v = parquet.ByteArrayValue([]byte(fmt.Sprintf("%c", 'a'+byte(probe%26))))
+						}
+						ok, err := bf.Check(v)
+						if err != nil {
+							return fmt.Errorf("[shared-file-bloom-check-fails] goroutine %d: BloomFilter().Check(%s) on row group %d column %d (%s): %w", i, v, g, c, what, err)
+						}
+						fmt.Fprintf(&sb, "%d:%v,", bf.Size(), ok)
+					}
 				}
-			}
-			for k := range seen[i].bf {
-				if seen[i].bf[k] != seen[j].bf[k] {
-					return "", fmt.Errorf("goroutines %d and %d observed different bloom filter pointers for chunk %d (lazy=%v)", i, j, k, lazy)
-				}
-			}
-			if outs[i] != outs[j] {
-				return "", fmt.Errorf("goroutines %d and %d read different content (task kind %d, lazy=%v)", i, j, j, lazy)
 			}
 		}
-		all = append(all, outs...)
+		outs[i] = sb.String()
+		return nil
+	})
+	if err != nil {
+		return nil, err
 	}
-	if all[0] != all[12] || all[2] != all[14] || all[3] != all[15] {
-		return "", errors.New("lazily and eagerly loaded files differ")
+	// all goroutines must have observed one pointer per column chunk
+	for i := 4; i < n; i++ {
+		j := i % 4
+		for k := range seen[i].ci {
+			if seen[i].ci[k] != seen[j].ci[k] || seen[i].oi[k] != seen[j].oi[k] {
+				return nil, fmt.Errorf("goroutines %d and %d observed different page index pointers for chunk %d (%s)", i, j, k, what)
+			}
+		}
+		for k := range seen[i].bf {
+			if seen[i].bf[k] != seen[j].bf[k] {
+				return nil, fmt.Errorf("goroutines %d and %d observed different bloom filter pointers for chunk %d (%s)", i, j, k, what)
+			}
+		}
+		if outs[i] != outs[j] {
+			return nil, fmt.Errorf("[shared-file-goroutines-differ] goroutines %d and %d performed the same reads on one File and got different content (task kind %d, %s): %s", i, j, j, what, c15FirstDiffText(outs[j], outs[i]))
+		}
 	}
-	return digestStrings(all), nil
+	return outs, nil
+}
+
+func c15FirstDiffText(a, b string) string {
+	x, y := c15FirstDiff(a, b)
+	return x + " vs " + y
 }
 
 // transpose rows into per-column, per-row value slices
@@ -877,7 +937,7 @@ func scenRegistries(seed int64, par bool) (string, error) {
 	outs := make([]string, n)
 	err := fanout(par, n, func(i int) error {
 		var sb bytes.Buffer
-		for round := 0; round < 24; round++ {
+		for round := 0; round < 12; round++ {
 			size := int(c15Fresh())
 			f, err := parquet.OpenFile(bytes.NewReader(data), int64(len(data)), parquet.ReadBufferSize(size))
 			if err != nil {
@@ -916,12 +976,177 @@ func scenRegistries(seed int64, par bool) (string, error) {
 				return err
 			}
 			sb.WriteString(br)
+			// the reflection path of the writers (a value of a Go type other than the writer's row type:
+			// writeValueFuncOfGroup, structFieldsCache)
+			wr, err := c15WriteAny(round%2, parquet.Group{"A": parquet.Int(64), "B": parquet.String()}, v.Interface(), func() {})
+			if err != nil {
+				return err
+			}
+			sb.WriteString(wr)
 			fmt.Fprintf(&sb, "%s %s;", parquet.LookupEncoding(format.Encoding(round%10)), parquet.LookupCompressionCodec(format.CompressionCodec(round%8)))
 		}
 		outs[i] = sb.String()
 		return nil
 	})
 	return digestStrings(outs), err
+}
+
+// c15AnyRow has a field whose Go type says nothing about the parquet group it is written to.
+type c15AnyRow struct {
+	ID      int64 `parquet:"ID"`
+	Payload any   `parquet:"Payload"`
+}
+
+// c15WriteAny writes one value through the reflection path of the writers and returns the rows of
+// the resulting file; before runs right in front of the Write call. how = 0: a GenericWriter[any] with an explicit schema; how = 1: an `any` field
+// of the row type mapped to a group.
+func c15WriteAny(how int, group parquet.Group, payload any, before func()) (string, error) {
+	var out bytes.Buffer
+	switch how {
+	case 0:
+		w := parquet.NewGenericWriter[any](&out, parquet.NewSchema("g", group))
+		before()
+		if _, err := w.Write([]any{payload}); err != nil {
+			return "", err
+		}
+		if err := w.Close(); err != nil {
+			return "", err
+		}
+	default:
+		w := parquet.NewGenericWriter[c15AnyRow](&out, parquet.NewSchema("Row", parquet.Group{"ID": parquet.Int(64), "Payload": group}))
+		before()
+		if _, err := w.Write([]c15AnyRow{{ID: 7, Payload: payload}}); err != nil {
+			return "", err
+		}
+		if err := w.Close(); err != nil {
+			return "", err
+		}
+	}
+	f, err := parquet.OpenFile(bytes.NewReader(out.Bytes()), int64(out.Len()))
+	if err != nil {
+		return "", err
+	}
+	var sb bytes.Buffer
+	for _, rg := range f.RowGroups() {
+		txt, err := readRowGroupRows(rg)
+		if err != nil {
+			return "", err
+		}
+		sb.WriteString(txt)
+	}
+	return sb.String(), nil
+}
+
+// scenSameKey: in the registries scenario every goroutine brings its own fresh keys; here all
+// goroutines of a round hit the process-wide registries and caches with the SAME never-before-seen
+// key — one ReadBufferSize, one Go struct type for SchemaOf, one (large) Go struct type written
+// through the reflection path — at nearly the same moment: goroutine i reaches the cache after i/8 of
+// the work that building the cache entry takes (enumerating and inserting an eighth of the fields, i
+// times), so that late-comers arrive while the entry of an earlier goroutine is under construction. What each goroutine wrote is checked
+// against the value it wrote (not only against the serial run).
+func scenSameKey(seed int64, par bool) (string, error) {
+	schema := parquet.SchemaOf(C15Flat{})
+	rows := c15FlatRows(rand.New(rand.NewSource(seed)), 200)
+	var file bytes.Buffer
+	w := parquet.NewGenericWriter[C15Flat](&file, schema, parquet.PageBufferSize(256), parquet.Compression(&parquet.Snappy))
+	if _, err := w.Write(rows); err != nil {
+		return "", err
+	}
+	if err := w.Close(); err != nil {
+		return "", err
+	}
+	data := file.Bytes()
+	const n = 16
+	const rounds = 6
+	int64Type := reflect.TypeOf(int64(0))
+	var all []string
+	for round := 0; round < rounds; round++ {
+		size := int(c15Fresh())
+		id := c15Fresh()
+		numFields := []int{90, 700, 2400, 2400, 12, 700}[round%6]
+		fields := make([]reflect.StructField, numFields)
+		for j := range fields {
+			fields[j] = reflect.StructField{Name: fmt.Sprintf("T%dF%04d", id, j), Type: int64Type}
+		}
+		typ := reflect.StructOf(fields)
+		eighth := reflect.StructOf(fields[:max(1, numFields/8)])
+		v := reflect.New(typ).Elem()
+		for j := range fields {
+			v.Field(j).SetInt(int64(1000 + j))
+		}
+		payload := v.Interface()
+		// the parquet group holds the first field, one from the middle and the last two (the fields of a
+		// Group are ordered by name: ascending index)
+		picks := []int{0, numFields / 2, numFields - 2, numFields - 1}
+		group := parquet.Group{}
+		for _, j := range picks {
+			group[fields[j].Name] = parquet.Int(64)
+		}
+		how := round % 2
+		want := parquet.Row{}
+		if how == 1 {
+			want = append(want, parquet.Int64Value(7).Level(0, 0, 0))
+		}
+		for _, j := range picks {
+			want = append(want, parquet.Int64Value(int64(1000+j)).Level(0, 0, len(want)))
+		}
+		wantText := rowsText([]parquet.Row{want})
+		small := reflect.New(reflect.StructOf([]reflect.StructField{
+			{Name: "A", Type: int64Type, Tag: `parquet:"A"`},
+			{Name: "B", Type: reflect.TypeOf(""), Tag: `parquet:"B"`},
+			{Name: fmt.Sprintf("X%d", id), Type: reflect.TypeOf(int32(0)), Tag: `parquet:"-"`},
+		})).Elem().Interface()
+		outs := make([]string, n)
+		var arrived atomic.Int32
+		err := fanout(par, n, func(i int) error {
+			// goroutine i reaches the cache after i/8 of the work of building one table of this type
+			// (enumerating the fields, then inserting them)
+			scratch := 0
+			got, err := c15WriteAny(how, group, payload, func() {
+				// all goroutines are on a processor before the first one goes on (thread wake-up times
+				// are far longer than the window aimed at)
+				if par {
+					arrived.Add(1)
+					for arrived.Load() < n {
+						runtime.Gosched()
+					}
+				}
+				for rep := 0; rep < i; rep++ {
+					tbl := make(map[string][]int)
+					for _, f := range reflect.VisibleFields(eighth) {
+						tbl[f.Name] = f.Index
+					}
+					scratch += len(tbl)
+				}
+			})
+			if err != nil {
+				return err
+			}
+			if got != wantText {
+				return fmt.Errorf("[fresh-struct-type-fields-lost] round %d goroutine %d of %d wrote the same value of a never-before-seen Go struct type (%d int64 fields T%dF0000.., field j = 1000+j) through the reflection path (%s) into a group holding fields %v: the file holds %q, the value determines %q",
+					round, i, n, numFields, id, []string{"GenericWriter[any] with an explicit schema", "`any` field of the row type mapped to a group"}[how], picks, got, wantText)
+			}
+			var sb bytes.Buffer
+			sb.WriteString(got)
+			f, err := parquet.OpenFile(bytes.NewReader(data), int64(len(data)), parquet.ReadBufferSize(size))
+			if err != nil {
+				return err
+			}
+			txt, err := readChunkPages(f.RowGroups()[0].ColumnChunks()[(i+round)%6])
+			if err != nil {
+				return err
+			}
+			sb.WriteString(digest([]byte(txt)))
+			fmt.Fprintf(&sb, "%v|%d", parquet.SchemaOf(small).Columns(), scratch)
+			outs[i] = sb.String()
+			return nil
+		})
+		if err != nil {
+			return "", err
+		}
+		all = append(all, outs...)
+	}
+	return digestStrings(all), nil
 }
 
 // ---------------------------------------------------------------- row group writers reused after Commit
